@@ -1,7 +1,7 @@
 (* C15 — property theorems (statements only; proofs live in Proofs.v). *)
 From Coq Require Import ZArith NArith QArith Qabs Bool List.
 Require Import QV.C15.Model QV.C15.Spec QV.C15.ModelQ QV.C15.Proofs QV.C15.Proofs_upd QV.C15.Proofs_prep QV.C15.Proofs_q
-  QV.C15.Proofs_parse QV.C15.Proofs_e2e QV.C15.ModelMC QV.C15.Proofs_mc QV.C15.ModelF QV.C15.Proofs_f QV.C15.Proofs_split QV.C15.Proofs_fr QV.C15.Proofs_r5.
+  QV.C15.Proofs_parse QV.C15.Proofs_e2e QV.C15.ModelMC QV.C15.Proofs_mc QV.C15.ModelF QV.C15.Proofs_f QV.C15.Proofs_split QV.C15.Proofs_fr QV.C15.Proofs_r5 QV.C15.Proofs_r6.
 Import ListNotations.
 Open Scope Z_scope.
 
@@ -611,3 +611,92 @@ Theorem C15_make_compatible_repaired_nonvacuous : exists us t' tr,
   t' <> ex_mc_ok /\ cplay (cupdate us t') <> cplay t'.
 Proof. exact make_compatible_update_nonvacuous. Qed.
 Print Assumptions C15_make_compatible_repaired_nonvacuous.
+
+(* ---- round 6: clause S4 (what the compiled tables record as changeable) and Q3 for Tabor (sequences of updates) ---- *)
+(* the parser: the recorded positions are exactly the advanced entries / table entries whose loop has a volatile count
+   (with that count's definition); every advanced entry points to a stored table holding the counts of its waveform
+   loops, and an entry carries the volatile marker iff its count is volatile.  No hypothesis on the tables. *)
+Theorem C15_tabor_positions : forall tabs st,
+  parse_aseq 0 tabs st_empty = Ok st ->
+  t_pos st = positions_of 0 tabs /\
+  length (t_adv st) = length tabs /\
+  (forall p r, In (p, r) (t_pos st) <->
+     (exists a tl, p = PAdv a /\ nth_error tabs a = Some tl /\ r = rep_of tl /\ is_vol r = true) \/
+     (exists a tl q c, p = PSeqPos a q /\ nth_error tabs a = Some tl /\ nth_error (kids tl) q = Some c /\
+                       r = rep_of c /\ is_vol r = true)) /\
+  (forall a tl, nth_error tabs a = Some tl ->
+     exists k tb, nth_error (t_adv st) a = Some (cnt tl, S k) /\ nth_error (t_tabs st) k = Some tb /\
+       length tb = length (kids tl) /\
+       forall q c, nth_error (kids tl) q = Some c ->
+         exists e, nth_error tb q = Some e /\ te_count e = cnt c /\ vflag e = is_vol (rep_of c)).
+Proof. exact parse_aseq_positions. Qed.
+Print Assumptions C15_tabor_positions.
+
+(* ... in one equation: per (advanced entry, table entry) = played waveform, "one of its two counts is recorded as
+   changeable" (Spec.tstate_marks reads the recorded positions only) iff the table's or the waveform's count is volatile *)
+Theorem C15_tabor_parser_marks : forall tabs st,
+  parse_aseq 0 tabs st_empty = Ok st -> tstate_marks st = tabs_marks tabs.
+Proof. exact parse_aseq_marks. Qed.
+Print Assumptions C15_tabor_parser_marks.
+
+(* S4 end to end for SINGLE sequence mode: a template (any nesting / mappings / volatile subset) instantiated, cleaned
+   up or not, compiled: for every played waveform, "its count is recorded as changeable in the tables" is exactly what
+   the scope-free specification says about the counts enclosing that waveform (no guard, no hypothesis on the run) *)
+Theorem C15_tabor_single_marks : forall p vals V t so (cl : bool) f mn mx st w tr,
+  create_program p vals V = Ok (Some t) -> spec_program p vals V = Some (Some so) ->
+  tabor_compile f (Some MSingle) mn mx (if cl then cleanup t else t) = Ok (st, w, tr) ->
+  tstate_marks st = oleafmarks false so.
+Proof. exact tabor_single_marks. Qed.
+Print Assumptions C15_tabor_single_marks.
+
+Theorem C15_tabor_single_marks_nonvacuous : exists t st w tr so,
+  create_program single_pt [(1%N, 2)] [1%N] = Ok (Some t) /\
+  spec_program single_pt [(1%N, 2)] [1%N] = Some (Some so) /\
+  tabor_compile 100 (Some MSingle) 1 8 (cleanup t) = Ok (st, w, tr) /\
+  length (t_pos st) = 2%nat /\ tstate_marks st = [true; false; true] /\ oleafmarks false so = [true; false; true].
+Proof. exact tabor_single_marks_example. Qed.
+Print Assumptions C15_tabor_single_marks_nonvacuous.
+
+(* advanced sequence mode (partial w.r.t. S4): the recorded positions are exactly the volatile counts of the tables
+   the preparation produced; that the preparation keeps the marks of the specification is NOT stated here *)
+Theorem C15_tabor_advanced_positions_partial : forall f mn mx t st w tr,
+  tabor_compile f (Some MAdvanced) mn mx t = Ok (st, w, tr) ->
+  exists tabs tr', adv_tables f mn mx (if root_enc t then encapsulate t else t) = Ok (tabs, w, tr') /\
+                   t_pos st = positions_of 0 tabs /\ tstate_marks st = tabs_marks tabs.
+Proof. exact tabor_advanced_marks. Qed.
+Print Assumptions C15_tabor_advanced_positions_partial.
+
+Theorem C15_tabor_advanced_positions_nonvacuous : exists t st w tr,
+  create_program coherent_pt [(1%N, 1)] [1%N] = Ok (Some t) /\
+  tabor_compile 100 (Some MAdvanced) 1 8 t = Ok (st, w, tr) /\ t_pos st <> [] /\
+  existsb (fun b => b) (tstate_marks st) = true /\ existsb negb (tstate_marks st) = true.
+Proof. exact tabor_advanced_marks_example. Qed.
+Print Assumptions C15_tabor_advanced_positions_nonvacuous.
+
+(* update_volatile_parameters reads of a table state only what is observable (tab_view) and the recorded positions:
+   states that agree on these stay so and report the same modifications *)
+Theorem C15_tabor_update_respects_view : forall us s1 s2,
+  same_obs s1 s2 -> same_obs (fst (update_tabor us s1)) (fst (update_tabor us s2)) /\
+                    snd (update_tabor us s1) = snd (update_tabor us s2).
+Proof. exact update_tabor_respects. Qed.
+Print Assumptions C15_tabor_update_respects_view.
+
+(* Q3 for Tabor, SINGLE sequence mode, EVERY sequence of updates, no hypothesis on decisions / sharing / warnings
+   (counts_ok: the model's bound on counts, for every intermediate program): the tables and recorded positions after
+   the whole sequence of update_volatile_parameters calls are those of a fresh compilation of the updated program *)
+Theorem C15_tabor_single_mode_sequence : forall f mn mx ups t st w tr,
+  tabor_compile f (Some MSingle) mn mx t = Ok (st, w, tr) ->
+  (forall k, counts_ok (update_all (firstn k ups) t) = true) ->
+  exists st2, tabor_compile f (Some MSingle) mn mx (update_all ups t) = Ok (st2, w, tr) /\
+              same_obs (update_tabor_all ups st) st2.
+Proof. exact tabor_single_update_sequence. Qed.
+Print Assumptions C15_tabor_single_mode_sequence.
+
+Theorem C15_tabor_single_mode_sequence_nonvacuous : exists t st w tr st2,
+  create_program single_pt [(1%N, 2)] [1%N] = Ok (Some t) /\
+  tabor_compile 100 (Some MSingle) 1 8 (cleanup t) = Ok (st, w, tr) /\
+  (forall k, counts_ok (update_all (firstn k [[(1%N, 0)]; [(1%N, 3)]]) (cleanup t)) = true) /\
+  tabor_compile 100 (Some MSingle) 1 8 (update_all [[(1%N, 0)]; [(1%N, 3)]] (cleanup t)) = Ok (st2, w, tr) /\
+  tab_view (update_tabor_all [[(1%N, 0)]; [(1%N, 3)]] st) = tab_view st2 /\ tab_view st2 <> tab_view st.
+Proof. exact tabor_single_sequence_example. Qed.
+Print Assumptions C15_tabor_single_mode_sequence_nonvacuous.
